@@ -268,7 +268,9 @@ class ProcessManager:
                 elif isinstance(action, ShutdownAction):
                     logger.debug("Process manager closed, killing workers.")
                     for worker in self.workers:
-                        if worker.pid:
+                        # Dead workers are already reaped, their pids
+                        # don't exist or belong to other processes.
+                        if worker.pid and worker.is_alive():
                             os.kill(worker.pid, signal.SIGINT)
                     return None
 
